@@ -91,9 +91,10 @@ def main():
         jobs = int(sys.argv[sys.argv.index("-j") + 1])
         args = [a for a in args if a != str(jobs)]
     muts = json.load(open(os.path.join(HERE, "mutants.json")))
-    seeds = os.path.join(HERE, "seeds.json")
-    if os.path.exists(seeds):
-        muts += json.load(open(seeds))
+    for extra in ("seeds.json", "benign.json"):      # independently seeded breaking changes / behaviour-preserving refactorings
+        ep = os.path.join(HERE, extra)
+        if os.path.exists(ep):
+            muts += json.load(open(ep))
     if args:
         muts = [m for m in muts if any(a in m["name"] or a in m["properties"] for a in args)]
     base = tempfile.mkdtemp(prefix="wb_selftest_")
